@@ -218,7 +218,7 @@ def thread_returns(caller, lo, start, end, cont, dest):
             t["otherwise"] = remap.get(t["otherwise"], t["otherwise"])
 
 
-def apply(raw_bodies, max_depth=3, max_blocks=600):
+def apply(raw_bodies, max_depth=3, max_blocks=1500):
     """raw_bodies: list of body dicts (mutated in place). Returns list of (caller, callee) pairs."""
     known = known_functions()
     if known is None:
